@@ -565,7 +565,7 @@ def run_fixed_conv(case):
     ds = []
     # levels: N, 2N and - only if the first ratio is too small (sign cancellation between the h^p and h^(p+1) terms can make a
     # single discrepancy accidentally small) - 4N.  A wrong term fails at every level, a coincidence does not repeat.
-    for lev in range(3):
+    for lev in range(5):
         d, r, bad = grad_discrepancy(case, fine, LT)
         if bad:
             return violation(bad, "on the %d-step grid" % (len(fine) - 1), labels)
@@ -583,6 +583,12 @@ def run_fixed_conv(case):
             if d <= floor or d * need <= dprev:
                 return ok(labels + ["levels_used=%d" % (lev + 1)], nontrivial=(any(case["req"]) or case["tsreq"]))
         fine = refine(fine)
+    # five levels (N .. 16N) without ever reaching the asymptotic rate.  A wrong term leaves a discrepancy that does not shrink at all
+    # (ratios ~1); pre-asymptotic sign cancellation between the h^p and h^(p+1) terms can hold the ratio below the asymptotic one for
+    # several levels but keeps it clearly above 1.  Only the former is reported; the latter is counted as inconclusive.
+    need_low = 1.25 if p == 1 else 2.0 ** (p - 2)
+    if ds[-2][0] / ds[-1][0] >= need_low:
+        return discard("conv_rate_inconclusive", labels)
     return violation("conv_rate", "%s/%s on %s: gradient discrepancies %s on %s steps: successive ratios %s stay below %.2f (|gradient| = %.3e); "
                      "a discrepancy that does not vanish like h^%d is a wrong term, not discretisation error"
                      % (method, case["bck"] or "same", case["family"], ["%.3e" % d for d, _ in ds], [n for _, n in ds],
@@ -685,6 +691,13 @@ def run_switched(case):
         return violation("value", "trajectory differs from the closed form by %.3e" % verr, labels)
     second = case["order"] == 2
     loss, lref = (y * W).sum(), (exact * W).sum()
+    if case.get("loss") == "fit":
+        # least-squares misfit at a perfect fit: the cotangent entering solve_ivp's backward is exactly zero in value but carries
+        # a graph; the second-order (Gauss-Newton) term J^T diag(w) J must come out of the recorded backward
+        second = True
+        Wp = W.abs() + 0.5
+        loss, lref = 0.5 * (Wp * (y - y.detach()) ** 2).sum(), 0.5 * (Wp * (exact - exact.detach()) ** 2).sum()
+        labels = labels + ["loss=fit"]
     if not loss.requires_grad:
         return violation("no_graph", "result does not require grad although %s do" % names, labels)
     got = zeros_if_none(xt_call(torch.autograd.grad, loss, wrt, create_graph=second, allow_unused=True, _where="backward"), wrt)
@@ -731,7 +744,7 @@ def switched_st(draw, tier="quick"):
             "place": draw(st.sampled_from(["explicit", "nn", "mixed"])), "method": "rk45",
             "req": req, "y0req": draw(st.booleans()), "tsreq": draw(st.sampled_from([True, False])),
             "cot": draw(st.sampled_from(["dense", "last"])), "order": draw(st.sampled_from([1, 1, 2])),
-            "seed": draw(st.integers(0, 2 ** 31 - 1))}
+            "loss": draw(st.sampled_from(["linear", "linear", "fit"])), "seed": draw(st.integers(0, 2 ** 31 - 1))}
 
 
 def tasks(tier):
